@@ -146,182 +146,184 @@ func (e *engine) sectionKeysets(pool *kslib.Pool, seed uint64) {
 			if _, err := parseKey(pk.KD, pt); err != nil {
 				continue
 			}
-			pk = &kslib.PoolKey{Name: pk.Name + " variant=" + variantName(pt), Class: pk.Class, Type: pk.Type, KD: pk.KD, Prefix: pk.Prefix, Pub: pk.Pub, Priv: pk.Priv, Slow: pk.Slow, Alt: pk.Alt}
-			obs := handleObserver(pool, i, pt)
-			mt := pk.KD.GetKeyMaterialType()
-			url := pk.KD.GetTypeUrl()
-			protoIn(cleartext, pk.Type, pk.Name, url, mt, pt, pk.KD.GetValue(), obs)
-			if !pk.Secret() {
-				protoIn(noSecrets, pk.Type, pk.Name, url, mt, pt, pk.KD.GetValue(), obs)
-			}
-			// internal:protoserialization.ParseKey(serialization around the caller's bytes)
-			e.run(spec{api: "internal:protoserialization.ParseKey/" + pk.Type, extra: "key=" + pk.Name, ins: []in1{{"KeyData.Value", pk.KD.GetValue()}}, once: true, mk: func() (*inst, error) {
-				twin, err := parseKey(pk.KD, pt)
-				if err != nil {
-					return nil, err
+			e.safe("keyset tests of "+pk.Name, func() {
+				pk = &kslib.PoolKey{Name: pk.Name + " variant=" + variantName(pt), Class: pk.Class, Type: pk.Type, KD: pk.KD, Prefix: pk.Prefix, Pub: pk.Pub, Priv: pk.Priv, Slow: pk.Slow, Alt: pk.Alt}
+				obs := handleObserver(pool, i, pt)
+				mt := pk.KD.GetKeyMaterialType()
+				url := pk.KD.GetTypeUrl()
+				protoIn(cleartext, pk.Type, pk.Name, url, mt, pt, pk.KD.GetValue(), obs)
+				if !pk.Secret() {
+					protoIn(noSecrets, pk.Type, pk.Name, url, mt, pt, pk.KD.GetValue(), obs)
 				}
-				var k key.Key
-				return &inst{call: func(ins [][]byte) ([][]byte, string) {
-					id := uint32(fixedKeyID)
-					if pt == tinkpb.OutputPrefixType_RAW {
-						id = 0
-					}
-					ser, err := protoserialization.NewKeySerialization(&tinkpb.KeyData{TypeUrl: url, Value: ins[0], KeyMaterialType: mt}, pt, id)
+				// internal:protoserialization.ParseKey(serialization around the caller's bytes)
+				e.run(spec{api: "internal:protoserialization.ParseKey/" + pk.Type, extra: "key=" + pk.Name, ins: []in1{{"KeyData.Value", pk.KD.GetValue()}}, once: true, mk: func() (*inst, error) {
+					twin, err := parseKey(pk.KD, pt)
 					if err != nil {
-						return nil, "err"
+						return nil, err
 					}
-					k, err = protoserialization.ParseKey(ser)
-					return nil, errS(err)
-				}, observe: func() string {
-					if k == nil {
-						return "no-key"
-					}
-					return objObs(k, twin)
-				}}, nil
-			}})
-			// internal:protoserialization.SerializeKey(k).KeyData().Value handed out
-			e.run(spec{api: "internal:protoserialization.SerializeKey/" + pk.Type, extra: "key=" + pk.Name, det: true, mk: func() (*inst, error) {
-				k, err := parseKey(pk.KD, pt)
-				if err != nil {
-					return nil, err
-				}
-				twin, err := parseKey(pk.KD, pt)
-				if err != nil {
-					return nil, err
-				}
-				return &inst{call: func([][]byte) ([][]byte, string) {
-					ser, err := protoserialization.SerializeKey(k)
+					var k key.Key
+					return &inst{call: func(ins [][]byte) ([][]byte, string) {
+						id := uint32(fixedKeyID)
+						if pt == tinkpb.OutputPrefixType_RAW {
+							id = 0
+						}
+						ser, err := protoserialization.NewKeySerialization(&tinkpb.KeyData{TypeUrl: url, Value: ins[0], KeyMaterialType: mt}, pt, id)
+						if err != nil {
+							return nil, "err"
+						}
+						k, err = protoserialization.ParseKey(ser)
+						return nil, errS(err)
+					}, observe: func() string {
+						if k == nil {
+							return "no-key"
+						}
+						return objObs(k, twin)
+					}}, nil
+				}})
+				// internal:protoserialization.SerializeKey(k).KeyData().Value handed out
+				e.run(spec{api: "internal:protoserialization.SerializeKey/" + pk.Type, extra: "key=" + pk.Name, det: true, mk: func() (*inst, error) {
+					k, err := parseKey(pk.KD, pt)
 					if err != nil {
-						return nil, "err"
+						return nil, err
 					}
-					return [][]byte{ser.KeyData().GetValue()}, "ok"
-				}, observe: func() string { return objObs(k, twin) }}, nil
-			}})
-			// proto keysets out
-			mkH := func() (*keyset.Handle, error) { return readHandle(keysetOf(pk.KD, pt)) }
-			e.run(spec{api: "insecurecleartextkeyset.KeysetMaterial/" + pk.Type, extra: "key=" + pk.Name, det: true, mk: func() (*inst, error) {
-				h, err := mkH()
-				if err != nil {
-					return nil, err
-				}
-				return &inst{call: func([][]byte) ([][]byte, string) { return valuesOf(insecurecleartextkeyset.KeysetMaterial(h)), "ok" },
-					observe: func() string { return obs(h) }}, nil
-			}})
-			e.run(spec{api: "insecurecleartextkeyset.Write(MemReaderWriter)/" + pk.Type, extra: "key=" + pk.Name, det: true, mk: func() (*inst, error) {
-				h, err := mkH()
-				if err != nil {
-					return nil, err
-				}
-				return &inst{call: func([][]byte) ([][]byte, string) {
-					m := &keyset.MemReaderWriter{}
-					if err := insecurecleartextkeyset.Write(h, m); err != nil {
-						return nil, "err"
-					}
-					return valuesOf(m.Keyset), "ok"
-				}, observe: func() string { return obs(h) }}, nil
-			}})
-			// all byte accessors of the handle's primary key object at once
-			e.run(spec{api: "keyset.Handle.Primary.Key.accessors/" + pk.Type, extra: "key=" + pk.Name, det: true, mk: func() (*inst, error) {
-				h, err := mkH()
-				if err != nil {
-					return nil, err
-				}
-				return &inst{call: func([][]byte) ([][]byte, string) {
-					en, err := h.Primary()
-					if err != nil {
-						return nil, "err"
-					}
-					var outs [][]byte
-					for _, lf := range accessors(en.Key()) {
-						outs = append(outs, lf.bytes(en.Key()))
-					}
-					return outs, "ok"
-				}, observe: func() string { return obs(h) }}, nil
-			}})
-			if pk.Class == "sig" || pk.Class == "hyb" || pk.Class == "jwtsig" {
-				e.run(spec{api: "keyset.Handle.Public+KeysetMaterial/" + pk.Type, extra: "key=" + pk.Name, det: true, mk: func() (*inst, error) {
-					h, err := mkH()
+					twin, err := parseKey(pk.KD, pt)
 					if err != nil {
 						return nil, err
 					}
 					return &inst{call: func([][]byte) ([][]byte, string) {
-						ph, err := h.Public()
+						ser, err := protoserialization.SerializeKey(k)
 						if err != nil {
 							return nil, "err"
 						}
-						return valuesOf(insecurecleartextkeyset.KeysetMaterial(ph)), "ok"
-					}, observe: func() string { return obs(h) }}, nil
+						return [][]byte{ser.KeyData().GetValue()}, "ok"
+					}, observe: func() string { return objObs(k, twin) }}, nil
 				}})
-			}
-			if !pk.Secret() {
-				e.run(spec{api: "keyset.Handle.WriteWithNoSecrets(MemReaderWriter)/" + pk.Type, extra: "key=" + pk.Name, det: true, mk: func() (*inst, error) {
+				// proto keysets out
+				mkH := func() (*keyset.Handle, error) { return readHandle(keysetOf(pk.KD, pt)) }
+				e.run(spec{api: "insecurecleartextkeyset.KeysetMaterial/" + pk.Type, extra: "key=" + pk.Name, det: true, mk: func() (*inst, error) {
+					h, err := mkH()
+					if err != nil {
+						return nil, err
+					}
+					return &inst{call: func([][]byte) ([][]byte, string) { return valuesOf(insecurecleartextkeyset.KeysetMaterial(h)), "ok" },
+						observe: func() string { return obs(h) }}, nil
+				}})
+				e.run(spec{api: "insecurecleartextkeyset.Write(MemReaderWriter)/" + pk.Type, extra: "key=" + pk.Name, det: true, mk: func() (*inst, error) {
 					h, err := mkH()
 					if err != nil {
 						return nil, err
 					}
 					return &inst{call: func([][]byte) ([][]byte, string) {
 						m := &keyset.MemReaderWriter{}
-						if err := h.WriteWithNoSecrets(m); err != nil {
+						if err := insecurecleartextkeyset.Write(h, m); err != nil {
 							return nil, "err"
 						}
 						return valuesOf(m.Keyset), "ok"
 					}, observe: func() string { return obs(h) }}, nil
 				}})
-			}
-			// key templates in: keyset.NewHandle(template) with the caller's template.Value
-			if root, err := parseKey(pk.KD, pt); err == nil && !slowKey(pk) && pk.Type != "RsaSsaPkcs1PrivateKey" && pk.Type != "RsaSsaPssPrivateKey" &&
-				pk.Type != "JwtRsaSsaPkcs1PrivateKey" && pk.Type != "JwtRsaSsaPssPrivateKey" && mt != tinkpb.KeyData_ASYMMETRIC_PUBLIC {
-				if tmpl, err := protoserialization.SerializeParameters(root.Parameters()); err == nil {
-					e.run(spec{api: "keyset.NewHandle(KeyTemplate)/" + pk.Type, extra: "key=" + pk.Name, ins: []in1{{"KeyTemplate.Value", tmpl.GetValue()}}, once: true, lays: layouts()[:2], mk: func() (*inst, error) {
-						var h *keyset.Handle
-						return &inst{call: func(ins [][]byte) ([][]byte, string) {
-							var err error
-							h, err = keyset.NewHandle(&tinkpb.KeyTemplate{TypeUrl: tmpl.GetTypeUrl(), Value: ins[0], OutputPrefixType: tmpl.GetOutputPrefixType()})
-							return nil, errS(err)
-						}, observe: func() string {
-							if h == nil {
-								return "handle=nil"
-							}
-							en, err := h.Primary()
+				// all byte accessors of the handle's primary key object at once
+				e.run(spec{api: "keyset.Handle.Primary.Key.accessors/" + pk.Type, extra: "key=" + pk.Name, det: true, mk: func() (*inst, error) {
+					h, err := mkH()
+					if err != nil {
+						return nil, err
+					}
+					return &inst{call: func([][]byte) ([][]byte, string) {
+						en, err := h.Primary()
+						if err != nil {
+							return nil, "err"
+						}
+						var outs [][]byte
+						for _, lf := range accessors(en.Key()) {
+							outs = append(outs, lf.bytes(en.Key()))
+						}
+						return outs, "ok"
+					}, observe: func() string { return obs(h) }}, nil
+				}})
+				if pk.Class == "sig" || pk.Class == "hyb" || pk.Class == "jwtsig" {
+					e.run(spec{api: "keyset.Handle.Public+KeysetMaterial/" + pk.Type, extra: "key=" + pk.Name, det: true, mk: func() (*inst, error) {
+						h, err := mkH()
+						if err != nil {
+							return nil, err
+						}
+						return &inst{call: func([][]byte) ([][]byte, string) {
+							ph, err := h.Public()
 							if err != nil {
-								return "primary=err"
+								return nil, "err"
 							}
-							return "parameters=" + serializeHex(en.Key().Parameters()) + "|equal=" + equalVia(en.Key().Parameters(), root.Parameters())
-						}}, nil
+							return valuesOf(insecurecleartextkeyset.KeysetMaterial(ph)), "ok"
+						}, observe: func() string { return obs(h) }}, nil
 					}})
 				}
-			}
-			// registry.Primitive(typeURL, serializedKey)
-			if class := primClass(pk.Class); class != "" && class != "kd" && !slowKey(pk) {
-				if class == "prfset" {
-					class = "prf"
-				}
-				raw := tinkpb.OutputPrefixType_RAW
-				var cks *tinkpb.Keyset
-				if pk.Priv >= 0 {
-					cks = keysetOf(pool.Keys[pk.Priv].KD, raw)
-				}
-				var q any
-				var err error
-				if class != "prf" {
-					q, err = partner(class, keysetOf(pk.KD, raw), cks, false)
-				}
-				if err == nil {
-					e.run(spec{api: "registry.Primitive/" + pk.Type, extra: "key=" + pk.Name, ins: []in1{{"serializedKey", pk.KD.GetValue()}}, once: true, lays: layouts()[:2], mk: func() (*inst, error) {
-						var p any
-						return &inst{call: func(ins [][]byte) ([][]byte, string) {
-							var err error
-							p, err = registry.Primitive(url, ins[0])
-							return nil, errS(err)
-						}, observe: func() string {
-							if p == nil {
-								return "no-primitive"
+				if !pk.Secret() {
+					e.run(spec{api: "keyset.Handle.WriteWithNoSecrets(MemReaderWriter)/" + pk.Type, extra: "key=" + pk.Name, det: true, mk: func() (*inst, error) {
+						h, err := mkH()
+						if err != nil {
+							return nil, err
+						}
+						return &inst{call: func([][]byte) ([][]byte, string) {
+							m := &keyset.MemReaderWriter{}
+							if err := h.WriteWithNoSecrets(m); err != nil {
+								return nil, "err"
 							}
-							return cross(class, p, q)
-						}}, nil
+							return valuesOf(m.Keyset), "ok"
+						}, observe: func() string { return obs(h) }}, nil
 					}})
 				}
-			}
+				// key templates in: keyset.NewHandle(template) with the caller's template.Value
+				if root, err := parseKey(pk.KD, pt); err == nil && !slowKey(pk) && pk.Type != "RsaSsaPkcs1PrivateKey" && pk.Type != "RsaSsaPssPrivateKey" &&
+					pk.Type != "JwtRsaSsaPkcs1PrivateKey" && pk.Type != "JwtRsaSsaPssPrivateKey" && mt != tinkpb.KeyData_ASYMMETRIC_PUBLIC {
+					if tmpl, err := protoserialization.SerializeParameters(root.Parameters()); err == nil {
+						e.run(spec{api: "keyset.NewHandle(KeyTemplate)/" + pk.Type, extra: "key=" + pk.Name, ins: []in1{{"KeyTemplate.Value", tmpl.GetValue()}}, once: true, lays: layouts()[:2], mk: func() (*inst, error) {
+							var h *keyset.Handle
+							return &inst{call: func(ins [][]byte) ([][]byte, string) {
+								var err error
+								h, err = keyset.NewHandle(&tinkpb.KeyTemplate{TypeUrl: tmpl.GetTypeUrl(), Value: ins[0], OutputPrefixType: tmpl.GetOutputPrefixType()})
+								return nil, errS(err)
+							}, observe: func() string {
+								if h == nil {
+									return "handle=nil"
+								}
+								en, err := h.Primary()
+								if err != nil {
+									return "primary=err"
+								}
+								return "parameters=" + serializeHex(en.Key().Parameters()) + "|equal=" + equalVia(en.Key().Parameters(), root.Parameters())
+							}}, nil
+						}})
+					}
+				}
+				// registry.Primitive(typeURL, serializedKey)
+				if class := primClass(pk.Class); class != "" && class != "kd" && !slowKey(pk) {
+					if class == "prfset" {
+						class = "prf"
+					}
+					raw := tinkpb.OutputPrefixType_RAW
+					var cks *tinkpb.Keyset
+					if pk.Priv >= 0 {
+						cks = keysetOf(pool.Keys[pk.Priv].KD, raw)
+					}
+					var q any
+					var err error
+					if class != "prf" {
+						q, err = partner(class, keysetOf(pk.KD, raw), cks, false)
+					}
+					if err == nil {
+						e.run(spec{api: "registry.Primitive/" + pk.Type, extra: "key=" + pk.Name, ins: []in1{{"serializedKey", pk.KD.GetValue()}}, once: true, lays: layouts()[:2], mk: func() (*inst, error) {
+							var p any
+							return &inst{call: func(ins [][]byte) ([][]byte, string) {
+								var err error
+								p, err = registry.Primitive(url, ins[0])
+								return nil, errS(err)
+							}, observe: func() string {
+								if p == nil {
+									return "no-primitive"
+								}
+								return cross(class, p, q)
+							}}, nil
+						}})
+					}
+				}
+			})
 		}
 	}
 
